@@ -160,6 +160,11 @@ func c07World(profs []*c07Profile, up dnsserver.Handler, cacheOn bool) (w *world
 		panic(err)
 	}
 
+	// Rewritten requests already handed out by this stack's filter: as the
+	// real filters' result caches do, the stub gives later requesters of the
+	// same rewrite a copy with an ID of its own.
+	var rwMu sync.Mutex
+	rwSeen := map[string]uint16{}
 	flt := &agdtest.Filter{
 		OnFilterRequest: func(_ context.Context, req *filter.Request) (filter.Result, error) {
 			switch {
@@ -170,6 +175,13 @@ func c07World(profs []*c07Profile, up dnsserver.Handler, cacheOn bool) (w *world
 				// resolved under another name.
 				modReq := dnsmsg.Clone(req.DNS)
 				modReq.Question[0].Name = "target-of-" + dns.Fqdn(req.Host)
+				rwMu.Lock()
+				key := fmt.Sprintf("%s/%d", req.Host, req.QType)
+				if k, again := rwSeen[key]; again {
+					modReq.Id = 40000 + k
+				}
+				rwSeen[key]++
+				rwMu.Unlock()
 
 				return &filter.ResultModifiedRequest{Msg: modReq, List: "list_cn", Rule: "cname-rule"}, nil
 			case strings.HasPrefix(req.Host, "rewrite"):
@@ -417,6 +429,12 @@ func runC07(s *kernel.Sim, cfg string) {
 
 				return
 			}
+		}
+		if r.resp != nil && r.resp.Id != r.id {
+			s.Failf("C07/foreign-data", "response carries an ID that is not its request's",
+				"stream %d, %s asks %s/%d id=%d: response id %d", r.stream, who, r.name, r.qtype, r.id, r.resp.Id)
+
+			return
 		}
 		got, exp := c07Describe(r.resp, false), c07Describe(want, false)
 		if got != exp {
